@@ -368,11 +368,21 @@ def corr_create(ctx, escalate):
                     calls = list(sc.calls)
         except (IndexError, RecursionError):
             continue
+        except Exception as e:
+            ctx.fail("create-event-raises:%s:%s:%r" % (shadow, cyl, us[:16]),
+                     "%s.create_event() on the scripted stream %r... raises %r" % (type(gen).__name__, us[:8], e),
+                     {"kind": "create", "shadow": shadow, "cyl": cyl, "start": start, "us": us, "l_int": lint})
+            bad_direct += 1
+            continue
         k = len(throws)
         per = 8 if shadow else 7
         p = ev.roots[0]
         accept_us = [us[j * per + 7] for j in range(k)] if shadow else [0.0] * k
         rep = {"kind": "create", "shadow": shadow, "cyl": cyl, "start": start, "us": us[:used], "l_int": lint}
+        vdims = (1000.0, 1500.0) if cyl else (2000.0, 1000.0, 1500.0)
+        if not in_volume(cyl, vdims, p.vertex):
+            ctx.fail("vertex-outside:%s:%r" % (cyl, us[:used][-per:]), "%s%r throws the vertex %r outside its volume for the variates %r" % (
+                type(gen).__name__, vdims, [float(x) for x in p.vertex], us[:used][-per:][:3]), rep)
         # direct bookkeeping checks on the implementation (exact)
         ok = used == k * per and gen.count == start + k and p is throws[-1][2]
         if shadow:
@@ -535,6 +545,39 @@ def probe_exit(ctx):
     ctx.extra["probe_exit_worst_error_over_tolerance"] = round(worst, 6)
 
 
+# Published total cross sections, typed here independently of pyrex/particle.py.
+# CTW: A. Connolly, R. Thorne, D. Waters, Phys. Rev. D 83, 113009 (2011), Eq. (7) and Table III:
+#   log10(sigma / cm^2) = C1 + C2 ln(eps - C0) + C3 ln^2(eps - C0) + C4 / ln(eps - C0),  eps = log10(E / GeV)
+CTW_TABLE = {   # (C0, C1, C2, C3, C4)
+    ("nu", "cc"): (-1.826, -17.31, -6.406, 1.431, -17.91), ("nu", "nc"): (-1.826, -17.31, -6.448, 1.431, -18.61),
+    ("nubar", "cc"): (-1.033, -15.95, -7.247, 1.569, -17.72), ("nubar", "nc"): (-1.033, -15.95, -7.296, 1.569, -18.30)}
+# GQRS: R. Gandhi, C. Quigg, M. Reno, I. Sarcevic, Phys. Rev. D 58, 093009 (1998): sigma_tot = 7.84e-36 (E/GeV)^0.363 cm^2
+# for neutrinos, 7.80e-36 for antineutrinos
+GQRS_TOTAL = {"nu": 7.84e-36, "nubar": 7.80e-36}
+AVOGADRO = 6.02214076e23
+
+
+def ref_interaction_length(model_name, pid, energy):
+    """total interaction length (cm water equivalent) = 1 / (N_A sigma_total)"""
+    kind = "nu" if pid > 0 else "nubar"
+    if model_name.startswith("GQRS"):
+        sigma = GQRS_TOTAL[kind] * energy ** 0.363
+    else:
+        eps = math.log10(energy)
+        sigma = 0.0
+        for ch in ("cc", "nc"):
+            c0, c1, c2, c3, c4 = CTW_TABLE[(kind, ch)]
+            lt = math.log(eps - c0)
+            sigma += 10 ** (c1 + c2 * lt + c3 * lt * lt + c4 / lt)
+    return 1.0 / (AVOGADRO * sigma)
+
+
+def in_volume(cyl, dims, v, slack=1e-9):
+    if cyl:
+        return v[0] * v[0] + v[1] * v[1] <= dims[0] * dims[0] * (1 + slack) and -dims[1] * (1 + slack) <= v[2] <= 0
+    return abs(v[0]) <= dims[0] / 2 * (1 + slack) and abs(v[1]) <= dims[1] / 2 * (1 + slack) and -dims[2] * (1 + slack) <= v[2] <= 0
+
+
 def probe_weights(ctx):
     """Weights of real events against independent computations: survival = exp(-X/L) with X the quadrature
     of the reference Earth profile along the chord behind the vertex (tolerance from the C15 discretisation
@@ -543,37 +586,57 @@ def probe_weights(ctx):
     import pyrex.particle as pp
     rng = ctx.rng
     st = np.random.get_state()
-    np.random.seed(ctx.seed % (2 ** 32))
+    fixed_E = [1e3, 1e12, 1e4, 3e3, 9.99e3, 1.0001e3]
     try:
         for model in (pp.CTWInteraction, pp.GQRSInteraction):
             for cyl in (True, False):
-                for _ in range(ctx.n(6, 150)):
-                    E = 10 ** rng.uniform(3, 12)
-                    dims = (rng.choice([1000.0, 5000.0]), rng.choice([1000.0, 2800.0])) if cyl else (rng.choice([2000.0, 8000.0]), rng.choice([2000.0, 500.0]), rng.choice([1000.0, 2800.0]))
+                for i in range(ctx.n(10, 200)):
+                    # 1e3..1e12 GeV log-uniform incl. both end points and the decade 1e3..1e4
+                    E = fixed_E[i] if i < len(fixed_E) else 10 ** rng.uniform(3, 4) if i % 3 == 0 else 10 ** rng.uniform(3, 12)
+                    dims = ((rng.choice([1000.0, 5000.0]), rng.choice([1500.0, 2800.0])) if cyl else
+                            (rng.choice([2000.0, 8000.0]), rng.choice([3000.0, 500.0]), rng.choice([1000.0, 2800.0])))     # dx != dy != dz
                     gen = g.CylindricalGenerator(dims[0], dims[1], E, interaction_model=model) if cyl else g.RectangularGenerator(dims[0], dims[1], dims[2], E, interaction_model=model)
                     c0 = gen.count
-                    with np.errstate(all="ignore"):
-                        ev = gen.create_event()
+                    seed = (ctx.seed * 1000003 + 7919 * i + (17 if cyl else 0) + (5 if model is pp.GQRSInteraction else 0)) % (2 ** 32)
+                    np.random.seed(seed)
+                    rep = {"kind": "weights", "cyl": cyl, "dims": list(dims), "energy": E, "model": model.__name__, "numpy_seed": seed}
+                    try:
+                        with np.errstate(all="ignore"):
+                            ev = gen.create_event()
+                    except Exception as e:
+                        ctx.fail("create-event-raises:%s:%s:%r:%r:%d" % (model.__name__, cyl, dims, E, seed),
+                                 "%s(%r).create_event() after np.random.seed(%d) raises %r" % (type(gen).__name__, dims, seed, e), rep)
+                        continue
                     p = ev.roots[0]
                     v, d = tuple(float(x) for x in p.vertex), tuple(float(x) for x in p.direction)
-                    L = float(p.interaction.total_interaction_length)
-                    rep = {"kind": "weights", "cyl": cyl, "dims": list(dims), "vertex": list(v), "direction": list(d), "energy": E, "model": model.__name__, "id": p.id.name}
+                    rep.update(vertex=list(v), direction=list(d), id=p.id.name)
                     ctx.case(key=("weights", model.__name__, cyl, E, v, d))
                     if gen.count != c0 + 1:
                         ctx.fail("count:%r" % (rep,), "count went from %d to %d for one unshadowed throw" % (c0, gen.count), rep)
+                    if not in_volume(cyl, dims, v):
+                        ctx.fail("vertex-outside:%s:%r:%d" % (cyl, dims, seed), "%s(%r) after np.random.seed(%d) throws the vertex %r outside its volume" % (type(gen).__name__, dims, seed, v), rep)
+                        continue
+                    if float(p.energy) != E:
+                        ctx.fail("energy:%r:%d" % (E, seed), "particle energy %r differs from the configured %r" % (p.energy, E), rep)
+                    # independent interaction length (published formulas)
+                    L = ref_interaction_length(model.__name__, p.id.value, E)
+                    Limpl = float(p.interaction.total_interaction_length)
+                    if not abs(Limpl - L) <= 1e-9 * L:
+                        ctx.fail("interaction-length:%s:%s:%r" % (model.__name__, "nu" if p.id.value > 0 else "nubar", E),
+                                 "%s total_interaction_length of a %s at %r GeV = %r cmwe, the published total cross section gives %r" % (model.__name__, p.id.name, E, Limpl, L), rep)
                     o = earthref.chord_oracle("PREM", v, tuple(-x for x in d))
                     X, B = (o["I"], earthref.bound(o, 500.0)) if o else (0.0, 0.0)
                     want = math.exp(-X / L)
                     tol = want * (math.exp(B / L) - 1) + 1e-12
                     if not abs(p.survival_weight - want) <= tol:
-                        ctx.fail("survival-weight:%s:%r:%r:%r" % (model.__name__, E, v, d), "survival weight %r but exp(-column depth / interaction length) = exp(-%r/%r) = %r (tolerance %.3g from the slant-depth step)" % (
-                            p.survival_weight, X, L, want, tol), rep)
+                        ctx.fail("survival-weight:%s:%r:%r:%r" % (model.__name__, E, v, d), "survival weight %r of a %s at %r GeV but exp(-column depth / interaction length) = exp(-%r/%r) = %r (tolerance %.3g from the slant-depth step)" % (
+                            p.survival_weight, p.id.name, E, X, L, want, tol), rep)
                     lo, hi = slab_oracle(cyl, dims, v, d)
                     Li = L / 0.92 / 100
                     wi = (hi - lo) / Li * math.exp(lo / Li)            # |d| = 1: chord = hi - lo, path in ice = -lo
                     if not abs(p.interaction_weight - wi) <= 1e-7 * wi + 1e-300:
-                        ctx.fail("interaction-weight:%s:%r:%r:%r" % (model.__name__, E, v, d), "interaction weight %r but (chord %r m / %r m) exp(-%r m / %r m) = %r" % (
-                            p.interaction_weight, hi - lo, Li, -lo, Li, wi), rep)
+                        ctx.fail("interaction-weight:%s:%r:%r:%r" % (model.__name__, E, v, d), "interaction weight %r of a %s at %r GeV but (chord %r m / %r m) exp(-%r m / %r m) = %r" % (
+                            p.interaction_weight, p.id.name, E, hi - lo, Li, -lo, Li, wi), rep)
     finally:
         np.random.set_state(st)
 
